@@ -107,21 +107,21 @@ class RefFlorySchulz(Ref):
 
 
 class RefSchulzZimm(Ref):
-    """documented density z^(z+1)/Gamma(z+1) M^(z-1)/Mn^z exp(-z M/Mn), z = Mn/(Mw-Mn), used at the integers as a mass function"""
+    """documented density z^(z+1)/Gamma(z+1) M^(z-1)/Mn^z exp(-z M/Mn), z = Mn/(Mw-Mn), used at the integers 1, 2, ... as a mass function
+    (mass 0 is outside the support: the density is positive there for z = 1 and diverges for z < 1)"""
     discrete = True
 
     def __init__(self, Mw, Mn):
         self.Mn = Mn
         self.z = Mn / (Mw - Mn)
         self.mean = Mn
-        self.support = (0, math.inf)
-        top = int(Mn * 12 + 200)
-        M = np.arange(1, top + 1, dtype=float)
+        self.support = (1, math.inf)
         z = self.z
+        # mean Mn, standard deviation Mn / sqrt(z), exponential tail of scale Mn / z
+        top = min(int(Mn * (1 + 40 / math.sqrt(z) + 60 / z)) + 200, 6_000_000)
+        M = np.arange(1, top + 1, dtype=float)
         logp = (z + 1) * math.log(z) - special.gammaln(z + 1) + (z - 1) * np.log(M) - z * math.log(Mn) - z * M / Mn
-        self.pm = np.concatenate([[0.0 if z > 1 else (1.0 if z == 1 else math.inf)], np.exp(logp)])
-        if z == 1:
-            self.pm[0] = z ** (z + 1) / math.gamma(z + 1) / Mn ** z
+        self.pm = np.concatenate([[0.0], np.exp(logp)])
         self.cum = np.cumsum(self.pm)
         self.total = float(self.cum[-1])
 
@@ -153,7 +153,8 @@ def param_grid(rnd, quick):
         out.append(("poisson", [float(n)]))
     for a in [0.5, 0.1, 0.0011, 0.02]:
         out.append(("flory_schulz", [a]))
-    for mw, mn in [(1500, 1400), (150, 100), (5000, 4000), (700, 600), (200, 150)]:
+    # the last three: shape parameter z = Mn / (Mw - Mn) exactly 1 (dispersity 2: k**(z-1) is 0**0 at k = 0), exactly 2, and below 1
+    for mw, mn in [(1500, 1400), (150, 100), (5000, 4000), (700, 600), (200, 150), (2000, 1000), (60, 30), (450, 300), (900, 300)]:
         out.append(("schulz_zimm", [float(mw), float(mn)]))
     if not quick:
         for _ in range(40):
